@@ -67,7 +67,8 @@ class Check:
         v = {"clause": clause, "act": act, "where": where, "detail": detail}
         for k in self.known:
             if k.get("status") == "open" and k.get("clause") == clause and \
-                    (not k.get("acts") or act in k["acts"]):
+                    (not k.get("acts") or act in k["acts"] or
+                     any(a.endswith("*") and act.startswith(a[:-1]) for a in k["acts"])):
                 self.known_hits.setdefault((clause, k.get("what", "")), 0)
                 self.known_hits[(clause, k.get("what", ""))] += 1
                 return False
